@@ -1218,4 +1218,3 @@ func stringScannerRuleSSA(r *Run, rule string) {
 		}
 	}
 }
-
